@@ -26,7 +26,8 @@ set_option autoImplicit false
 
 namespace Lexer
 
-abbrev Byte := Nat
+/-- a byte is a `Nat` (notation, so that `omega` sees plain `Nat` arithmetic) -/
+scoped notation "Byte" => Nat
 
 /-! ### character classes (`isLetter`, `isDigit`, `skipWhitespace`, `strings.ToUpper` on ASCII) -/
 
@@ -126,33 +127,40 @@ inductive Start where
   | invalid                   -- "Unexpected character": error recorded, skipped
   deriving DecidableEq, Repr
 
+/-- the `case` labels of the `switch l.ch` -/
+def punct : Byte → Start
+  | 0 => .eof
+  | 44 => .op1 .comma
+  | 40 => .op1 .lparen
+  | 41 => .op1 .rparen
+  | 91 => .op1 .lbracket
+  | 93 => .op1 .rbracket
+  | 46 => .op1 .dot
+  | 63 => .op1 .question
+  | 124 => .op1 .pipe
+  | 123 => .op1 .lbrace
+  | 125 => .op1 .rbrace
+  | 43 => .op1 .plus
+  | 45 => .minus
+  | 42 => .op1 .asterisk
+  | 47 => .op1 .slash
+  | 61 => .cmp .eq .eq
+  | 62 => .cmp .gt .ge
+  | 60 => .cmp .lt .le
+  | 33 => .bang
+  | 39 => .quote
+  | 34 => .quote
+  | 96 => .backtick
+  | _ => .invalid
+
+/-- The Go code runs the `switch` first and tests `isLetter`, `isDigit` afterwards (whitespace was
+skipped before); no letter, digit or whitespace byte is a `case` label, so the order of the tests is
+immaterial and the model asks the class questions first (it keeps the case analysis in proofs small). -/
 def startOf (b : Byte) : Start :=
-  if b = 0 then .eof
-  else if b = 44 then .op1 .comma
-  else if b = 40 then .op1 .lparen
-  else if b = 41 then .op1 .rparen
-  else if b = 91 then .op1 .lbracket
-  else if b = 93 then .op1 .rbracket
-  else if b = 46 then .op1 .dot
-  else if b = 63 then .op1 .question
-  else if b = 124 then .op1 .pipe
-  else if b = 123 then .op1 .lbrace
-  else if b = 125 then .op1 .rbrace
-  else if b = 43 then .op1 .plus
-  else if b = 45 then .minus
-  else if b = 42 then .op1 .asterisk
-  else if b = 47 then .op1 .slash
-  else if b = 61 then .cmp .eq .eq
-  else if b = 62 then .cmp .gt .ge
-  else if b = 60 then .cmp .lt .le
-  else if b = 33 then .bang
-  else if b = 39 then .quote
-  else if b = 34 then .quote
-  else if b = 96 then .backtick
-  else if isLetter b then .letter
+  if isLetter b then .letter
   else if isDigit b then .digit
   else if isWs b then .ws
-  else .invalid
+  else punct b
 
 /-- `l.peekChar() == '='` -/
 def nextIsEq : List Byte → Bool
